@@ -230,6 +230,10 @@ E = {
  "E-C09-3": "rounding/convert_operator.h (tie and neg_inf): floor_residual / floor_int inlined into floor with named const locals",
  "E-C12-3": "wrapper unary / shift / binary operators: operate<> helper inlined, rep operator and operands named through aliases and const references",
  "E-C18-3": "bit.h: rotl / rotr shift counts hoisted into locals; countl_zero / countr_zero specialisations ?: -> if",
+ "E-C10-1": "uintwide_t.h: eval_subtract_n loop body (hoisted minuend, store before the borrow update, ?: -> if/else on the inverted test); preincrement / predecrement do-while -> for with break",
+ "E-C10-2": "uintwide_t.h: widening converting constructor through `(!neg) ? v : -v` and one copy/fill/negate; signed compare as `my_is_neg != other_is_neg` with a conditional result; right_shift_fill_value as if/return",
+ "E-C20-1": "math.h: the requires-dispatched overload pairs of exp2m1_0to1 and fractional folded into one template each with if constexpr",
+ "E-C20-2": "numbers.h: pi() with a hoisted n_plus_2 and n for n + 0L; constant_with_fallback ?: -> early-return if with the negated test, locals regrouped",
  "E-C02-2": "named.h: result-type computation of quotient extracted into a traits class, std::max written out",
  "E-C04-2": "convert_operator.h: cross-radix steps through a mutate-in-place helper `rescale`, same-radix path through named locals",
  "E-C05-2": "elastic_integer/custom_operator.h: `|` -> `||`, aliases for result types, hoisted locals in bitwise_not and the comparison",
